@@ -66,7 +66,7 @@ def main(argv=None) -> int:
                 n_unlisted += 1
             if len(vs) > 3:
                 print(f"  (+{len(vs) - 3} further violations with key={k})")
-        if not args.replay:
+        if not args.replay and not os.environ.get("LVF_SCRATCH"):
             core.write_evidence(ctx, rep, getattr(mod, "LEVEL", "model_checking"), n_unlisted, len(seen_known))
         print(f"{pid} tier={args.tier} seed={seed}: states={rep.states} transitions={rep.transitions} "
               f"traces={rep.traces} evaluations={rep.evaluations} violations={n_unlisted} known={len(seen_known)} "
